@@ -462,6 +462,35 @@ func c12Extra(c *Ctx, pk *packages.Package) {
 			return true
 		})
 	}
+	// the if-form of the same decision: a condition comparing GetType()/Type with TYPE_MESSAGE or TYPE_ENUM alone
+	// ("only message fields refer to a type") forgets the other reference-carrying kinds; `GetTypeName() == ""` is the
+	// test that covers them all
+	for _, f := range pk.Syntax {
+		ast.Inspect(f, func(x ast.Node) bool {
+			ifs, ok := x.(*ast.IfStmt)
+			if !ok {
+				return true
+			}
+			names := map[string]bool{}
+			ast.Inspect(ifs.Cond, func(m ast.Node) bool {
+				if sel, ok := m.(*ast.SelectorExpr); ok && strings.HasPrefix(sel.Sel.Name, "FieldDescriptorProto_TYPE_") {
+					names[sel.Sel.Name] = true
+				}
+				return true
+			})
+			if !names["FieldDescriptorProto_TYPE_MESSAGE"] && !names["FieldDescriptorProto_TYPE_ENUM"] {
+				return true
+			}
+			n++
+			ok2 := names["FieldDescriptorProto_TYPE_MESSAGE"] && names["FieldDescriptorProto_TYPE_ENUM"] && names["FieldDescriptorProto_TYPE_GROUP"]
+			name := "?"
+			if fd := p.EnclosingFuncDecl(ifs); fd != nil {
+				name = declName(fd)
+			}
+			c.Ob("REFERENCE-TYPES", name+"/if", ifs.Pos(), ok2, true, "the condition singling out type-referencing fields names ENUM, MESSAGE and GROUP together: %v", ok2)
+			return true
+		})
+	}
 	if n < 2 {
 		c.Fail("REFERENCE-TYPES", "count", token.NoPos, "only %d reference-type arms found", n)
 	}
